@@ -208,6 +208,30 @@ func deepCopyKeys(keys []string) []string {
 	return out
 }
 
+// genMegabyte: key sets that push one byte array of the serialised message
+// beyond 1 MiB (a size no generated case reaches by chance).
+func genMegabyte(r *RNG, which int) KeySet {
+	var k []string
+	switch which {
+	case 0: // leaves: 12 000 keys, values chosen by the caller
+		for i := 0; i < 12000; i++ {
+			k = append(k, string(r.Bytes(r.Range(3, 7))))
+		}
+		return KeySet{"mb:values", sortUniq(k)}
+	case 1: // leaf tails: 4 500 keys with 250-330 byte tails behind the last branch
+		for i := 0; i < 4500; i++ {
+			k = append(k, string(r.Bytes(4))+string(r.Bytes(r.Range(250, 330))))
+		}
+		return KeySet{"mb:leaf-tails", sortUniq(k)}
+	}
+	// inner prefixes: 2 200 pairs of keys, each pair behind its own 500-600 byte run
+	for i := 0; i < 2200; i++ {
+		p := string(r.Bytes(3)) + string(r.Bytes(r.Range(500, 600)))
+		k = append(k, p+"\x10", p+"\x10\x00", p+"\xf0"+string(r.Bytes(r.Intn(3))))
+	}
+	return KeySet{"mb:inner-prefixes", sortUniq(k)}
+}
+
 func runC05RoundTrip(ctx *Ctx, idx int) {
 	r := NewRNG(caseSeed(ctx.Seed, "C05", ctx.Tier, idx))
 	scale := 0
@@ -222,6 +246,10 @@ func runC05RoundTrip(ctx *Ctx, idx int) {
 		// streams of several hundred KiB (whatever a writer may do differently
 		// for big messages - chunks, parallel encoding - must still be stable)
 		ks = genBig(r, []int{0, 5, 2}[idx-len(dir)])
+	} else if idx < len(dir)+6 {
+		// one byte array of the message beyond 1 MiB: encoded values, stored
+		// leaf tails, stored inner prefixes in turn
+		ks = genMegabyte(r, idx-len(dir)-3)
 	} else if idx%5 == 0 {
 		// low-entropy label sets: many equally frequent bitmaps (tie-breaks in the short table)
 		ks = KeySet{"repeats", genRepeats(r, r.Range(30, 500), r.Range(2, 14), r.Range(2, 4))}
@@ -233,6 +261,15 @@ func runC05RoundTrip(ctx *Ctx, idx int) {
 	vals := genVals(r, pickKind(r), n, r.Intn(5))
 	if n > 20000 {
 		vals = genVals(r, []string{"i64", "i32", "str16"}[idx%3], n, 0)
+	}
+	if ks.Family == "mb:values" {
+		// 100-260 bytes per value: 1.2-3 MiB of leaves
+		vals = &ValSpec{Kind: "bytesN", N: r.Range(100, 260), Strs: make([]string, n)}
+		for i := range vals.Strs {
+			vals.Strs[i] = string(r.Bytes(vals.N))
+		}
+	} else if strings.HasPrefix(ks.Family, "mb:") {
+		vals = genVals(r, []string{"i32", "str16", "none"}[r.Intn(3)], n, []int{0, 1}[r.Intn(2)])
 	}
 	lc := &LCase{Family: ks.Family, Keys: keys, Vals: vals, R: r}
 	ctx.Eval()
@@ -361,6 +398,20 @@ func runC05RoundTrip(ctx *Ctx, idx int) {
 		if oi == 0 || oi == 15 {
 			countShape(ctx, classify(parseSlim(b1)))
 		}
+		if len(b1) > 1<<20 {
+			if m := parseSlim(b1); m != nil {
+				if m.Leaves != nil && len(m.Leaves.Bytes) > 1<<20 {
+					ctx.Count("roundtrip_with_leaves_beyond_1MiB", 1)
+				}
+				if m.LeafPrefixes != nil && len(m.LeafPrefixes.Bytes) > 1<<20 {
+					ctx.Count("roundtrip_with_leaf_tails_beyond_1MiB", 1)
+				}
+				if m.InnerPrefixes != nil && len(m.InnerPrefixes.Bytes) > 1<<20 {
+					ctx.Count("roundtrip_with_inner_prefixes_beyond_1MiB", 1)
+				}
+			}
+		}
+		ctx.Max("largest_stream_bytes", int64(len(b1)))
 		if ctx.WantSample() && n >= 2 && n <= 8 && oi == 15 {
 			d := lc.describe()
 			d["opt"] = o.String()
@@ -1569,7 +1620,7 @@ func init() {
 			}
 			return 3000
 		},
-		Gates: shapeGates("rebuilds_compared", "roundtrips_equal:Unmarshal", "roundtrips_equal:proto.Unmarshal", "histories", "final_state:empty", "final_state:after_failed_load", "final_state:loaded", "remarshalled_and_reloaded:0.5.10", "remarshalled_and_reloaded:3sec",
+		Gates: shapeGates("roundtrip_with_leaves_beyond_1MiB", "roundtrip_with_leaf_tails_beyond_1MiB", "roundtrip_with_inner_prefixes_beyond_1MiB", "rebuilds_compared", "roundtrips_equal:Unmarshal", "roundtrips_equal:proto.Unmarshal", "histories", "final_state:empty", "final_state:after_failed_load", "final_state:loaded", "remarshalled_and_reloaded:0.5.10", "remarshalled_and_reloaded:3sec",
 			"shape:with_short_nodes", "shape:with_257bit_nodes", "valkind:str16", "valkind:none"),
 		Exhaustive: func(tier string) bool { return false },
 		Finish: func(tier string, m *Merged, cov map[string]interface{}) {
